@@ -273,7 +273,7 @@ func c16(c *Ctx) {
 	tryProfile := func(seg int, s, e []int, tag string) {
 		caseNo++
 		a, p := r.Args(op)
-		p.ExtraKeys = false
+		p.ExtraKeys = caseNo%2 == 0 // (entries of the map that are no segments of a profile - keys 0, 4, 200 - are nobody's business, whatever they hold)
 		name := fmt.Sprintf("Segment%d", seg)
 		a[name+"Start"], a[name+"End"] = rm.HHmmVal(s[0], s[1]), rm.HHmmVal(e[0], e[1])
 		serial := r.Serial()
